@@ -27,7 +27,7 @@ T = {
 }
 # CHK: seed -> (check to run, harness filter) where the detecting check is not the seed's own property
 CHK = {"C03-2": ("C12", "ParallelJoin"), "C12-2": ("C13", "ParallelQueries"), "C11-2": ("C11", "Contention")}
-for extra in ("seed_meta_round2.py", "seed_meta_round3.py", "seed_meta_round4.py", "seed_meta_round5.py", "seed_meta_round6.py", "seed_meta_round9.py"):
+for extra in ("seed_meta_round2.py", "seed_meta_round3.py", "seed_meta_round4.py", "seed_meta_round5.py", "seed_meta_round6.py", "seed_meta_round9.py", "seed_meta_round10.py"):
     f = os.path.join(os.path.dirname(__file__), extra)
     if os.path.exists(f):
         exec(open(f).read())
